@@ -679,6 +679,15 @@ pub fn render_dimacs(doc: &DimacsDoc, lt: u8, l: &mut Layout) -> Doc {
         feat(&mut b, "no_final_newline");
         feat(&mut b, "last_line_of_any_kind_without_newline");
         b.d.bytes.pop();
+        // keep the bookkeeping inside the shortened data: cuts and item ends are offsets into it
+        let n = b.d.bytes.len();
+        for c in b.d.cuts.iter_mut() {
+            *c = (*c).min(n);
+        }
+        b.d.cuts.dedup();
+        for e in b.d.item_ends.iter_mut() {
+            *e = (*e).min(n);
+        }
     }
     b.finish()
 }
